@@ -80,7 +80,7 @@ def btcdeb_cmd(draw):
         txh, inh = c['tx'].ser().hex(), c['fund'].ser().hex()
         if kind == 'spend-mutated':
             which = draw(st.sampled_from(['tx', 'txin', 'both']))
-            mut = draw(st.sampled_from(['truncate', 'byte', 'vout-oob', 'count', 'empty', 'odd-hex', 'nonhex', 'witness-drop-all', 'swap']))
+            mut = draw(st.sampled_from(['truncate', 'byte', 'vout-oob', 'vout-oob', 'vout-oob', 'count', 'empty', 'odd-hex', 'nonhex', 'witness-drop-all', 'swap']))
             def m(h):
                 b = bytearray(bytes.fromhex(h))
                 if mut == 'truncate':
@@ -99,7 +99,7 @@ def btcdeb_cmd(draw):
                     return h[:10] + 'zz' + h[12:]
                 return h
             if mut == 'vout-oob':
-                c['tx'].vin[c['idx']]['n'] = draw(st.sampled_from([len(c['fund'].vout), 0xffffffff, 1000]))
+                c['tx'].vin[c['idx']]['n'] = draw(st.sampled_from([len(c['fund'].vout), len(c['fund'].vout) + 1, len(c['fund'].vout) + 6, 0xffffffff, 0x00ffffff, 1000]))
                 txh = c['tx'].ser().hex()
             elif mut == 'witness-drop-all':
                 for v in c['tx'].vin:
@@ -113,9 +113,12 @@ def btcdeb_cmd(draw):
                 if which in ('txin', 'both'):
                     inh = m(inh)
             comp = 'spend-mutated:' + mut
-        argv += ['--tx=' + draw(st.sampled_from(['', '', '0.001:', '1,2,3:', 'x:', ':', '1.123456789:'])) + txh, '--txin=' + inh]
-        if kind == 'select' or draw(st.integers(0, 5)) == 0:
-            argv.append('--select=' + draw(st.sampled_from(['0', '1', '2', '-1', '-2', '99', '4294967295', '2147483648', 'abc', ''])))
+        argv += ['--tx=' + draw(st.sampled_from(['', '', '', '', '0.001:', '1,2,3:', 'x:', ':', '1.123456789:'])) + txh, '--txin=' + inh]
+        if kind == 'spend-mutated' and mut == 'vout-oob' and draw(st.booleans()):
+            # the explicitly selected input references an output the funding transaction does not have (the explicit path has its own range check to make)
+            argv.append(draw(st.sampled_from(['--select=%d', '-s%d'])) % c['idx'])
+        elif kind == 'select' or draw(st.integers(0, 5)) == 0:
+            argv.append('--select=' + draw(st.sampled_from(['0', '1', '2', '-1', '-2', '99', '4294967295', '2147483648', 'abc', '', str(c['idx']), str(c['idx'])])))
         stdin = b'\n'
     elif kind == 'tx-only':
         t = draw(c13.txs())
